@@ -75,7 +75,8 @@ BAD_OPERANDS = {
     "-mmin": ["x", "", "+-1", "1m", "++2"],
     "-amin": ["x", "", "+-1"],
     "-cmin": ["x", "", "-+3"],
-    "-perm": ["8", "9", "18", "77777", "-8", "/9", "q", "u=q", "u+z", "hello", "-99", "/88888", "u=8", "a=rwxq", "789"],
+    "-perm": ["8", "9", "18", "77777", "-8", "/9", "q", "u=q", "u+z", "hello", "-99", "/88888", "u=8", "a=rwxq", "789", "", "-", "/", "u=r,", "-u=rw,g=r,",
+              ",u=r", "u=r,,g=r", "/u=w,", "-,"],
     "-regextype": ["foo", "", "posix", "POSIX-BASIC", "emacs ", "perl", "extended", "é"],
     "-user": ["nosuchuser_verif_xyz", "", "no such user"],
     "-group": ["nosuchgroup_verif_xyz", "", "no such group"],
